@@ -14,16 +14,50 @@
         NOTE: Drive/C18 answers the same request line with the same model function (`NumT.Inh.abs`,
         which `Signed::abs` forwards to) and the same spec; whichever handler comes first in
         `All.handlers`, the answer is identical.
+
+  and it TIGHTENS the spec answer of the shift requests whose value the properties leave open
+  (Drive/C05, Drive/C17 answer `*` for a release-mode / wrapping shift by `s ≥ BITS` at a width that is
+  not a power of two): C04 fixes that these never panic ("in builds without [debug assertions] return
+  the wrapped result instead", "wrapping_/overflowing_/saturating_ methods panic only for a zero
+  divisor"; theorems `shift_prim_rel_value`, `shift_inherent_panics`, `wos_total_by_typing`), so the
+  answer becomes `anyValue` — every hex pattern, but not `P`:
+    wrapping_shl | wrapping_shr cfg a s ,  shl | shr cfg dbg|rel a s            (model: Drive/C05)
+    shl_<prim>_<form> | shr_<prim>_<form> | shl_u32_inh | shr_u32_inh cfg mode a k   (model: Drive/C17)
+  The model answer and every determined spec answer are passed through unchanged.  Shifts by a
+  `BUint` / `BInt` amount (`shl_bu_*`, `shl_bi_*`) are not named by C04 and stay as Drive/C17 answers them.
 -/
 import Bnum.Drive.Util
+import Bnum.Drive.C05
+import Bnum.Drive.C17
 import Bnum.Model.Panic
 import Bnum.Spec.Div
 namespace Bnum.Drive.C04
 open Bnum Bnum.Drive Bnum.Spec
 
+/-- spec answer "any value, but no panic": check.py matches `x*` as the prefix `x`; a value is printed
+    as lowercase hex, so exactly the non-`P` answers match -/
+def anyValue : String := "0*|1*|2*|3*|4*|5*|6*|7*|8*|9*|a*|b*|c*|d*|e*|f*"
+
+private def primTys : List String :=
+  ["u8", "u16", "u32", "u64", "u128", "usize", "i8", "i16", "i32", "i64", "i128", "isize"]
+
+/-- `*` (value left open) → `anyValue` (value left open, panic excluded) -/
+private def noPanic (r : Option (String × String)) : Option (String × String) :=
+  r.map fun p => (p.1, if p.2 = "*" then anyValue else p.2)
+
+/-- is `op` a shift by a primitive amount in the vocabulary of Drive/C17? -/
+private def isPrimShift (op : String) : Bool :=
+  match op.splitOn "_" with
+  | [d, t, _] => (d = "shl" || d = "shr") && primTys.contains t
+  | _ => false
+
 private def moV (c : Cfg) (o : Outcome (List Nat)) : String := showOut (showVal c) o
 
 def handle : Handler := fun c op args =>
+  if op = "wrapping_shl" || op = "wrapping_shr" || op = "shl" || op = "shr" then
+    noPanic (C05.handle c op args)
+  else if isPrimShift op then noPanic (C17.handle c op args)
+  else
   let w := c.w
   let sg := c.signed
   let m := M c.w c.n
